@@ -198,7 +198,7 @@ Definition jiter (j : json) : res (list json) :=
 Definition as_str (j : json) : res str :=
   match j with JStr s => Ok s | _ => Err Unmodelled end.
 
-(** Python list indexing [l[j]]: negative indices count from the end (this is F10) *)
+(** Python list indexing [l[j]]: negative indices count from the end *)
 Definition py_index {A : Type} (l : list A) (j : json) : res A :=
   match j with
   | JInt z =>
@@ -210,11 +210,28 @@ Definition py_index {A : Type} (l : list A) (j : json) : res A :=
   | _ => Err TypeErr
   end.
 
-(** [try: l[vi] except IndexError: raise ValueError] *)
+(** [vi < 0] for a loaded JSON value [vi] ([TypeError] for str / None / list / dict) *)
+Definition json_neg (j : json) : res bool :=
+  match j with
+  | JInt z => Ok (z <? 0)%Z
+  | JNum (NFin q) => Ok (negb (Qle_bool 0 q))
+  | JNum NNInf => Ok true
+  | JNum NPInf => Ok false
+  | JBool _ => Err Unmodelled
+  | _ => Err TypeErr
+  end.
+
+(** [try: if vi < 0: raise IndexError; l[vi]  except IndexError: raise ValueError]
+    (the test [vi < 0] is the repair of F10, commit 2f3a5c1) *)
 Definition att_index {A : Type} (l : list A) (j : json) : res A :=
-  match py_index l j with
-  | Err IndexErr => Err ValueErr
-  | r => r
+  match json_neg j with
+  | Err e => Err e
+  | Ok true => Err ValueErr
+  | Ok false =>
+      match py_index l j with
+      | Err IndexErr => Err ValueErr
+      | r => r
+      end
   end.
 
 (* ------------------------------------------------------------------------- *)
@@ -891,17 +908,14 @@ Definition json_to_weights_model (j : json) : res ptensor :=
       let pshape := ex ++ shape in
       let paxes := map (fun kn => APhys (fst kn) (snd kn)) (combine (seq 0 (length pshape)) pshape) in
       do ov <- jget_opt j k_vaxes;
-      match ov with
-      | None | Some JNull =>
-          (* F19: PatternedTensor(physical, paxes, None, default) fails [assert(self.vaxes is not None)] *)
-          Err AssertErr
-      | Some jv =>
-          do lv <- jiter jv;
-          do vaxes <- mapM (json_to_axis paxes) lv;
-          do od <- jget_opt j k_default;
-          do default <- match od with None => Ok (NFin 0) | Some x => as_num x end;
-          Ok (mkPT t (length ex) pshape vaxes default)
-      end
+      (* vaxes = paxes if vaxes is None else ...  (the repair of F19, commit fe13a06) *)
+      do vaxes <- match ov with
+                  | None | Some JNull => Ok paxes
+                  | Some jv => do lv <- jiter jv; mapM (json_to_axis paxes) lv
+                  end;
+      do od <- jget_opt j k_default;
+      do default <- match od with None => Ok (NFin 0) | Some x => as_num x end;
+      Ok (mkPT t (length ex) pshape vaxes default)
   | _ =>
       do t <- parse_tens j;
       do shape <- match tens_shape t with Some s => Ok s | None => Err ValueErr end;
@@ -914,7 +928,8 @@ Definition json_to_weights_model (j : json) : res ptensor :=
 
 Inductive vspec := VInt (z : Z) | VList (l : list vspec) | VDict (b : nat) (t : vspec) (a : nat).
 
-Record wspec := mkWS { ws_phys : tens; ws_expand : list nat; ws_vaxes : list vspec; ws_default : num }.
+(** [ws_vaxes = None]: the specification has no "vaxes" entry *)
+Record wspec := mkWS { ws_phys : tens; ws_expand : list nat; ws_vaxes : option (list vspec); ws_default : num }.
 
 Fixpoint vspec_to_json (v : vspec) : json :=
   match v with
@@ -924,14 +939,23 @@ Fixpoint vspec_to_json (v : vspec) : json :=
   end.
 
 Definition wspec_to_json (s : wspec) : json :=
-  JDict [(k_physical, tens_to_json (ws_phys s));
-         (k_expand, JList (map (fun n => JInt (Z.of_nat n)) (ws_expand s)));
-         (k_vaxes, JList (map vspec_to_json (ws_vaxes s)));
-         (k_default, JNum (ws_default s))].
+  JDict ((k_physical, tens_to_json (ws_phys s)) ::
+         (k_expand, JList (map (fun n => JInt (Z.of_nat n)) (ws_expand s))) ::
+         match ws_vaxes s with
+         | Some l => [(k_vaxes, JList (map vspec_to_json l)); (k_default, JNum (ws_default s))]
+         | None => [(k_default, JNum (ws_default s))]
+         end).
 
 (** sizes of the physical axes the specification talks about *)
 Definition ws_pshape (s : wspec) : list nat :=
   ws_expand s ++ match tens_shape (ws_phys s) with Some sh => sh | None => [] end.
+
+(** without a "vaxes" entry the virtual axes are the physical axes, in order *)
+Definition ws_vaxes_eff (s : wspec) : list vspec :=
+  match ws_vaxes s with
+  | Some l => l
+  | None => map (fun k => VInt (Z.of_nat k)) (seq 0 (length (ws_pshape s)))
+  end.
 
 (** the physical axis an integer names (Python indexing: negative counts from the end) *)
 Definition vs_axis (np : nat) (z : Z) : nat :=
@@ -989,14 +1013,14 @@ Fixpoint decode_all (psh : list nat) (vs : list vspec) (idx : list nat) (a : asg
     Leading [expand] axes broadcast: the physical entry does not depend on their coordinates. *)
 Definition spec_denote (s : wspec) (idx : list nat) : option num :=
   let psh := ws_pshape s in
-  match decode_all psh (ws_vaxes s) idx [] with
+  match decode_all psh (ws_vaxes_eff s) idx [] with
   | None => Some (ws_default s)
   | Some a =>
       let p := map (fun k => match asg_get a k with Some x => x | None => 0 end) (seq 0 (length psh)) in
       tens_get (ws_phys s) (skipn (length (ws_expand s)) p)
   end.
 
-Definition spec_shape (s : wspec) : list nat := map (vs_numel (ws_pshape s)) (ws_vaxes s).
+Definition spec_shape (s : wspec) : list nat := map (vs_numel (ws_pshape s)) (ws_vaxes_eff s).
 
 (** tabulated: the dense tensor itself *)
 Definition spec_dense (s : wspec) : option tens :=
@@ -1035,8 +1059,8 @@ Definition wf_wspec (s : wspec) : bool :=
   | Some _ =>
       let psh := ws_pshape s in
       let np := length psh in
-      forallb (vs_in_range np) (ws_vaxes s) &&
-      forallb (fun kn => existsb (Nat.eqb (fst kn)) (flat_map (vs_axes np) (ws_vaxes s)) || Nat.eqb (snd kn) 1)
+      forallb (vs_in_range np) (ws_vaxes_eff s) &&
+      forallb (fun kn => existsb (Nat.eqb (fst kn)) (flat_map (vs_axes np) (ws_vaxes_eff s)) || Nat.eqb (snd kn) 1)
               (combine (seq 0 np) psh)
   end.
 
@@ -1068,8 +1092,9 @@ Definition fgg_to_json_model (dec : nat -> str) (g : fgg) : res json :=
               JDict [(k_domains, JDict (map (fun kd => (fst kd, domain_to_json (snd kd))) (f_domains g)));
                      (k_factors, JDict jfs)])]).
 
-(** [FGG.from_hrg]: a new grammar with the same start to which every rule is added; the label
-    table is rebuilt from the start symbol and the rules only (this is F20) *)
+(** [FGG.from_hrg]: a new grammar with the same start and a copy of the label table (the repair of
+    F20, commit 450bcaa) to which every rule is added; [add_rule] re-registers the labels of the
+    rule ([ValueError] on a clash; its new atomic pre-check raises the same error) *)
 Definition from_hrg_labels (g : hrg) : res (list elabel) :=
   (fix go (rs : list rule) (tbl : list elabel) : res (list elabel) :=
      match rs with
@@ -1078,7 +1103,7 @@ Definition from_hrg_labels (g : hrg) : res (list elabel) :=
          do t1 <- add_edge_label tbl (r_lhs r);
          do t2 <- add_edge_labels t1 (map e_label (g_edges (r_rhs r)));
          go rs' t2
-     end) (all_rules g) [h_start g].
+     end) (all_rules g) (h_labels g).
 
 Definition from_hrg (g : hrg) : res hrg :=
   do tbl <- from_hrg_labels g;
@@ -1168,6 +1193,4 @@ Definition has_num (p : nat -> Z -> bool) (jg : json) : bool :=
 
 (** outside [0..n-1] (what the property calls out of range) *)
 Definition oor (n : nat) (z : Z) : bool := ((z <? 0) || (Z.of_nat n <=? z))%Z.
-(** outside [-n..n-1] (what Python list indexing calls out of range) *)
-Definition oor_py (n : nat) (z : Z) : bool := ((z <? - Z.of_nat n) || (Z.of_nat n <=? z))%Z.
 Definition has_oor (jg : json) : bool := has_num oor jg.
